@@ -3,7 +3,7 @@
    terminates on EVERY input string — any sequence of code points, for every word-character
    table uw — with a complete token list or exactly one exception. *)
 From Coq Require Import String NArith ZArith List Bool.
-From BP Require Import TotalBase LexBase Lex LexSpec LexCase LexProofs LexActions.
+From BP Require Import Re TotalBase LexBase Lex LexSpec LexCase LexProofs LexActions LexRe.
 From BPGen Require Import GenLexer.
 Import ListNotations.
 
@@ -69,6 +69,21 @@ Theorem C09_lex_huge_literal_refuted : forall uw,
   snd (lex uw (repeat 49%N 4301)) = LCrash ValueError /\ snd (lex uw (repeat 49%N 4300)) = LDone.
 Proof. exact huge_literal_witness. Qed.
 Print Assumptions C09_lex_huge_literal_refuted.
+
+(* bridge to the declarative semantics of Re.v: every Latin-1 lexeme the backtracking matcher can choose for a
+   rule is in the language (Re.matches) of the rule's regex with \b and laziness erased; for the rules the C09
+   module translates, the erased regex is syntactically the term of coq/gen/GenC09.v *)
+Theorem C09_lex_lexeme_matches : forall uw r p w post,
+  dm uw r p w post -> Forall (fun c => (c < 256)%N) w -> matches (erase r) (map Ascii.ascii_of_N w).
+Proof. exact dm_matches. Qed.
+Print Assumptions C09_lex_lexeme_matches.
+
+Theorem C09_lex_same_regexes_as_GenC09 :
+  erase rx_t_STRING_LITERAL = BPGen.GenC09.string_literal_re
+  /\ erase rx_t_INT_LITERAL = BPGen.GenC09.int_literal_re
+  /\ erase rx_t_HEX_LITERAL = BPGen.GenC09.hex_literal_re.
+Proof. repeat split. Qed.
+Print Assumptions C09_lex_same_regexes_as_GenC09.
 
 (* non-vacuity: a text with every kind of token; an unterminated string; a bad width *)
 Example C09_lex_nonvacuous :
